@@ -54,6 +54,9 @@ func verifyFunc(w *World, fn *ssa.Function, fc *FuncContract) (fr *FuncResult) {
 	for _, fv := range fn.FreeVars {
 		v := e.freshVal(shapeOf(fv.Type()), "fv_"+sanitize(fv.Name()))
 		e.assumeLoaded(st, v)
+		if _, isPtr := fv.Type().(*types.Pointer); isPtr && v.Sh.K == KInt {
+			e.assume(fmt.Sprintf("(not (= %s 0))", v.T)) // a captured variable is a cell of the enclosing activation
+		}
 		f.vals[fv] = v
 	}
 	e.entry = st.clone()
@@ -391,8 +394,14 @@ func (e *Enc) assumeParamWF(st *State, v Val, t types.Type, fn, pname string) {
 	switch v.Sh.K {
 	case KIface:
 		if e.isASTType(t) {
-			e.assume(fmt.Sprintf("(=> (isptrtype %s) (not (= %s 0)))", v.Sub[0].T, v.Sub[1].T))
-			e.usedTypeInvs["parameters of AST interface type hold no typed-nil pointer"] = true
+			// Walk hands the INTO target to visitors as a Node even when there is none: a typed-nil *Target
+			// is the one typed-nil pointer the package itself puts into an AST interface
+			exc := "false"
+			if tt := e.w.namedPtrTag("Target"); tt > 0 {
+				exc = fmt.Sprintf("(= %s %d)", v.Sub[0].T, tt)
+			}
+			e.assume(fmt.Sprintf("(=> (and (isptrtype %s) (not %s)) (not (= %s 0)))", v.Sub[0].T, exc, v.Sub[1].T))
+			e.usedTypeInvs["parameters of AST interface type hold no typed-nil pointer (except *Target, which Walk passes on when a statement has no INTO clause)"] = true
 		}
 	case KSlice:
 		sl, ok := t.Underlying().(*types.Slice)
